@@ -5,6 +5,7 @@
 From Coq Require Import ZArith List String Bool Ascii Permutation.
 From Verif Require Import Value PyEq Path Update Filter Coll Expr Pipeline PipelineSpec PipelineGuard.
 From Verif Require Import C03Base C03Laws C03Indep C03IndepProject C03Unwind C03Group C03Stages C03Pipeline.
+From Verif Require Import C03StageProject C03StageProject2 C03StageGroup C03GroupSort C03StageGroup2 C03Pipeline2.
 Import ListNotations.
 Open Scope Z_scope.
 Open Scope string_scope.
@@ -182,18 +183,23 @@ Print Assumptions C03_facet_fields.
 
 (* The guarded equivalence with the specification, for the pipelines whose operators (also
    inside the sub-pipelines of $facet, recursively) are $match, $sort, $skip, $limit, $count,
-   $unwind without includeArrayIndex, and $facet (c03_covered, Proofs/C03Pipeline.v; the $sort
-   key paths are inside the model).
+   $unwind without includeArrayIndex, $addFields / $set, $replaceRoot (the expressions through
+   C04_expression_env), $lookup in the localField / foreignField form (the equality filter
+   through C01) and $facet (c03_covered, Proofs/C03Pipeline.v; the $sort key paths are inside
+   the model).
 
    The full statement is
      C03_pipeline : forall db docs p, c03_reasons db docs p = 0 ->
        aggregate db docs p <> Err EUnmodelled ->
        agrees (spec_aggregate db docs p) (aggregate db docs p) <> Some false
-   What is missing: $group, $project, $addFields / $set, $replaceRoot, $lookup, $unwind with
-   includeArrayIndex, and every stage downstream of a $group (there the specification and the
-   library differ by the order of the top-level keys and the stream is unordered, so the
-   stage lemmas have to be stated up to that equivalence instead of equality); the
-   expression-evaluating stages would take C04_expression as the premise expr_correct.
+   What is missing: $group with keys that are arrays (the order of the library's sort on
+   arrays has not been related to the equality of the specification), $project with dotted names,
+   $unwind with includeArrayIndex, and every stage downstream of a $project or a $group (there
+   the specification and the library differ by the order of the top-level keys, and after
+   $group the stream is unordered, so the stage lemmas have to be stated up to that equivalence
+   on their INPUT as well: the specification's stages would have to be shown invariant under
+   it).  $project and $group are covered as the LAST stage of a pipeline:
+   C03_pipeline_partial2, C03_pipeline_group_null and C03_pipeline_group_partial below.
 
    First form: whenever the specification decides and the model is not outside its scope,
    both fail, or both succeed with the same documents in the same order (rel, in
@@ -227,3 +233,139 @@ Theorem C03_stage_ok : forall db o op l,
   rel (spec_stage db op o (mkStream l true [])) (run_stage db op o l).
 Proof. exact stage_ok_all. Qed.
 Print Assumptions C03_stage_ok.
+
+(* ------------------------------------------------------------------ part B, continued *)
+
+(* A covered pipeline followed by one last $project whose field names are plain top-level
+   names, not repeated, _id being given by a flag if at all (project_covered2,
+   Proofs/C03StageProject2.v): inclusion or exclusion flags, or inclusion flags and computed
+   fields (the expressions through C04_expression_env).  The specification and the library
+   answer the same documents in the same order, each with the same fields; the order of the
+   fields differs (the specification puts _id first, the library leaves it where the input
+   document has it), so the documents are related by a permutation of their top-level fields.
+   The intermediate documents must have no repeated key (Python dicts). *)
+Theorem C03_pipeline_partial2_rel : forall db docs pre o,
+  c03_covered (VArr pre) = true -> project_covered2 o = true ->
+  c03_reasons db docs (VArr (pre ++ [VDoc [("$project", o)]])) = 0 ->
+  (forall mid, aggregate db docs (VArr pre) = Ok mid -> Forall (fun d => wf_value d = true) mid) ->
+  match spec_aggregate db docs (VArr (pre ++ [VDoc [("$project", o)]])),
+        aggregate db docs (VArr (pre ++ [VDoc [("$project", o)]])) with
+  | PUndef, _ => True
+  | _, Err EUnmodelled => True
+  | PErr, Err _ => True
+  | PV s, Ok l =>
+      Forall2 (fun a b => exists fs gs, a = VDoc fs /\ b = VDoc gs /\ Permutation fs gs) (s_docs s) l
+      /\ s_ord s = true /\ s_sets s = []
+  | _, _ => False
+  end.
+Proof. exact pipeline_project2_rel. Qed.
+Print Assumptions C03_pipeline_partial2_rel.
+
+(* the same with the comparison `agrees` of the specification *)
+Theorem C03_pipeline_partial2 : forall db docs pre o,
+  c03_covered (VArr pre) = true -> project_covered2 o = true ->
+  c03_reasons db docs (VArr (pre ++ [VDoc [("$project", o)]])) = 0 ->
+  (forall mid, aggregate db docs (VArr pre) = Ok mid -> Forall (fun d => wf_value d = true) mid) ->
+  (forall l, aggregate db docs (VArr (pre ++ [VDoc [("$project", o)]])) = Ok l ->
+             Forall (fun d => wf_value d = true) l) ->
+  agrees (spec_aggregate db docs (VArr (pre ++ [VDoc [("$project", o)]])))
+         (aggregate db docs (VArr (pre ++ [VDoc [("$project", o)]]))) <> Some false.
+Proof. exact pipeline_project2_agrees. Qed.
+Print Assumptions C03_pipeline_partial2.
+
+(* flags only (project_covered, Proofs/C03StageProject.v): the answer of the library is a
+   filter of the fields of the intermediate documents, so it is well-formed when they are *)
+Theorem C03_pipeline_partial2_flags : forall db docs pre o,
+  c03_covered (VArr pre) = true -> project_covered o = true ->
+  c03_reasons db docs (VArr (pre ++ [VDoc [("$project", o)]])) = 0 ->
+  (forall mid, aggregate db docs (VArr pre) = Ok mid -> Forall (fun d => wf_value d = true) mid) ->
+  agrees (spec_aggregate db docs (VArr (pre ++ [VDoc [("$project", o)]])))
+         (aggregate db docs (VArr (pre ++ [VDoc [("$project", o)]]))) <> Some false.
+Proof. exact pipeline_project_agrees. Qed.
+Print Assumptions C03_pipeline_partial2_flags.
+
+(* the $project stage on its own, on documents without repeated top-level key *)
+Theorem C03_stage_project : forall db o l,
+  project_covered2 o = true -> stage_reasons db "$project" o l = 0 -> Forall top_nodup l ->
+  rel_perm (spec_stage db "$project" o (mkStream l true [])) (run_stage db "$project" o l).
+Proof. exact stage_project2. Qed.
+Print Assumptions C03_stage_project.
+
+(* A covered pipeline followed by one last $group whose key is the constant null (one group
+   holding the whole input; no field name repeated: group_null_covered,
+   Proofs/C03StageGroup.v), with the accumulators $sum, $avg, $min, $max, $first, $last,
+   $push, $addToSet: the specification and the library answer one document with the same
+   fields and the same values (the $addToSet arrays are even the same lists), _id first in the
+   specification and last in the library. *)
+Theorem C03_pipeline_group_null : forall db docs pre o,
+  c03_covered (VArr pre) = true -> group_null_covered o = true ->
+  c03_reasons db docs (VArr (pre ++ [VDoc [("$group", o)]])) = 0 ->
+  (forall l, aggregate db docs (VArr (pre ++ [VDoc [("$group", o)]])) = Ok l ->
+             Forall (fun d => wf_value d = true) l) ->
+  agrees (spec_aggregate db docs (VArr (pre ++ [VDoc [("$group", o)]])))
+         (aggregate db docs (VArr (pre ++ [VDoc [("$group", o)]]))) <> Some false.
+Proof. exact pipeline_group_null_agrees. Qed.
+Print Assumptions C03_pipeline_group_null.
+
+Theorem C03_stage_group_null : forall db o l,
+  group_null_covered o = true -> stage_reasons db "$group" o l = 0 ->
+  match spec_stage db "$group" o (mkStream l true []), run_stage db "$group" o l with
+  | PUndef, _ => True
+  | _, Err EUnmodelled => True
+  | PErr, Err _ => True
+  | PV s, Ok l' =>
+      s_ord s = true /\
+      Forall2 (fun a b => exists fs gs, a = VDoc fs /\ b = VDoc gs /\ Permutation fs gs) (s_docs s) l' /\
+      Forall (fun d => forall fs, d = VDoc fs ->
+                forall kv, In kv fs -> mem_str (fst kv) (s_sets s) = true -> is_arr (snd kv) = true) (s_docs s)
+  | _, _ => False
+  end.
+Proof. exact stage_group_null. Qed.
+Print Assumptions C03_stage_group_null.
+
+(* $group with any key expression whose values, on the documents that reach the stage, are
+   scalars (null - also for a missing value -, numbers, strings, naive dates: scalar_key,
+   Proofs/C03GroupSort.v); no field name repeated (group_covered).  The library sorts the
+   (key, document) pairs with a stable sort and cuts the result into runs of equal keys; the
+   specification collects the classes of equal keys in the order of first occurrence.  Both
+   give one group per class, with the documents of the class in input order under the key of
+   the first of them: *)
+Theorem C03_groups_are_classes : forall e l keyed,
+  is_null e = false -> mapM (key_fn e) l = Ok keyed ->
+  Forall (fun p => scalar_key (fst p) = true) keyed ->
+  exists gs, groups_of e l = Ok gs /\ Permutation gs (classes keyed []).
+Proof. exact groups_of_classes. Qed.
+Print Assumptions C03_groups_are_classes.
+
+(* ... so that the answers agree as bags (as lists when there is at most one group), the
+   $addToSet fields as sets.  Partial: the hypothesis on the key values (scalar_keys) is what
+   is missing for the full $group statement (array keys); the full statement would be
+     forall db docs pre o, c03_covered (VArr pre) = true -> group_covered o = true ->
+       c03_reasons db docs (VArr (pre ++ [VDoc [("$group", o)]])) = 0 -> (output well-formed) ->
+       agrees ... <> Some false *)
+Theorem C03_pipeline_group_partial : forall db docs pre o,
+  c03_covered (VArr pre) = true -> group_covered o = true ->
+  c03_reasons db docs (VArr (pre ++ [VDoc [("$group", o)]])) = 0 ->
+  (forall mid fs ide, aggregate db docs (VArr pre) = Ok mid -> o = VDoc fs -> assoc "_id" fs = Some ide ->
+     Forall (fun d => match eval [] d true ide with
+                      | EV k => scalar_key k = true
+                      | _ => True end) mid) ->
+  (forall l, aggregate db docs (VArr (pre ++ [VDoc [("$group", o)]])) = Ok l ->
+             Forall (fun d => wf_value d = true) l) ->
+  agrees (spec_aggregate db docs (VArr (pre ++ [VDoc [("$group", o)]])))
+         (aggregate db docs (VArr (pre ++ [VDoc [("$group", o)]]))) <> Some false.
+Proof. exact pipeline_group_partial. Qed.
+Print Assumptions C03_pipeline_group_partial.
+
+Theorem C03_stage_group_partial : forall db o l,
+  group_covered o = true -> stage_reasons db "$group" o l = 0 ->
+  (forall fs ide, o = VDoc fs -> assoc "_id" fs = Some ide -> scalar_keys ide l) ->
+  match spec_stage db "$group" o (mkStream l true []), run_stage db "$group" o l with
+  | PUndef, _ => True
+  | _, Err EUnmodelled => True
+  | PErr, Err _ => True
+  | PV s, Ok l' => Forall (fun d => wf_value d = true) l' -> stream_agrees s l' = true
+  | _, _ => False
+  end.
+Proof. exact stage_group_scalar. Qed.
+Print Assumptions C03_stage_group_partial.
